@@ -67,6 +67,11 @@ CHECKS = {
          "Held on every explored case: ~580000 (quick) statement sequences up to length 4 / 5 over a 68-instance alphabet agree on typing; 90+ operator x argument leaves with not / double not, pairs under and/or/not and 3000 / 60000 random trees of depth <= 3 select the same scalar documents as logic.MatchesHasExpression. Ordering comparisons with non-number operands (BSON type brackets) are a known finding and excluded.",
          "Trusted base: the 250-line $match interpreter harness/model/mongomatch.go (no MongoDB in the sandbox). Hook H4 mongo/export_verif.go (build tag verif) only reads the compiled pipeline.",
          "5/C14"),
+ "C20": ("exploration",
+         "recording-driver monitor: the psql and existing-sql backends run over a recording database/sql driver (injected through verif-tagged constructors); every statement and its bound arguments are captured and a PostgreSQL tokenizer compares the statement sent for a hostile client string with the one sent for a benign string (token skeleton, decoded literals, bound arguments)",
+         "All 38 entry points that take an id, label or name x 42 hostile strings are run completely. 24 call sites build SQL by string formatting and are listed as known findings (one per call site, keyed driver:function:argument); the parameterised sites (AddVertex/AddEdge) hold, and any site not listed that changes token structure is reported.",
+         "Trusted: the 180-line PostgreSQL tokenizer harness/model/sqltok.go (standard_conforming_strings on). No SQL server exists in the sandbox; canned empty result sets stand in for query answers.",
+         "5/C20"),
 }
 
 NOT_YET = "check not built yet in this session (design in DESIGN.md section 5); claimed once the monitor exists and is silent on the unchanged tree"
